@@ -285,9 +285,14 @@ func runC07(rec *vk.Rec, ci int) {
 				fail(kind, fmt.Sprintf("filter %s key=%s opts=%v: before SUBACK got %v, model last-%d = %v", chanStr(f), kp, opts, gotS, limit, wantS))
 				break
 			}
-			// leave the connection unsubscribed so that live deliveries do not pile up
-			if err := c.Unsubscribe(keys[kp] + "/" + chanStr(f)); err != nil {
-				fail("no-reply", err.Error())
+			// half of the time the subscription stays active, so that a later SUBSCRIBE for the same
+			// filter (e.g. to fetch more history) finds the connection already subscribed
+			if r.Chance(50) {
+				if err := c.Unsubscribe(keys[kp] + "/" + chanStr(f)); err != nil {
+					fail("no-reply", err.Error())
+				}
+			} else {
+				rec.Inc("subscriptions_left_active")
 			}
 			c.Take()
 		}
